@@ -38,14 +38,14 @@ func c05GenFx(r *verifh.Rng) []verifh.Section {
 			}})
 		}
 	}
-	for i := 0; i < verifh.Scale(6, 200); i++ {
+	for i := 0; i < verifh.Scale(6, 70); i++ {
 		n := r.Pick(1, 2, 3, r.Range(1, 8), 16)
 		secs = append(secs, verifh.Section{Cfg: fmt.Sprintf("kind=fx mode=conc n=%d", n), Ops: []string{
 			fmt.Sprintf("run items=%d pan=%d exits=%s rs=%d", r.Range(1, verifh.Scale(200, 600)), r.Pick(0, 10, 40), r.PickS("s", "seg", "e"), r.Intn(1<<30)),
 			fmt.Sprintf("run items=%d pan=%d exits=%s rs=%d", r.Range(1, 60), 100, r.PickS("seg", "g", "se"), r.Intn(1<<30)),
 		}})
 	}
-	for i := 0; i < verifh.Scale(6, 200); i++ {
+	for i := 0; i < verifh.Scale(6, 70); i++ {
 		n := r.Pick(1, 2, 3, r.Range(1, 8), 16)
 		secs = append(secs, verifh.Section{Cfg: fmt.Sprintf("kind=mr mode=conc n=%d", n), Ops: []string{
 			fmt.Sprintf("run api=foreach items=%d pan=%d exits=%s rs=%d", r.Range(1, verifh.Scale(200, 600)), r.Pick(0, 0, 5), r.PickS("s", "g", "eg"), r.Intn(1<<30)),
@@ -102,7 +102,7 @@ func c05GenOptSeqs(r *verifh.Rng) []verifh.Section {
 		if lib == "mr" {
 			apis = []string{"foreach", "void", "mapreduce", "chan"}
 		}
-		for i := 0; i < verifh.Scale(7, 120); i++ {
+		for i := 0; i < verifh.Scale(7, 45); i++ {
 			var ops []string
 			k := r.Range(3, 7)
 			for j := 0; j < k; j++ {
